@@ -567,6 +567,7 @@ func (x *Exec) heapStoreStruct(st *State, t types.Type, p *Term, v Value) {
 	l := x.layout(t)
 	ts := x.flatten(st, t, v)
 	base := typeKey(t)
+	x.noteWrite(base, p)
 	for i, c := range l {
 		key := base + c.Suffix
 		arr := x.heapGet(st, key, ArrSort(IntSort, c.S))
@@ -1217,6 +1218,7 @@ func (x *Exec) storeField(l *ast.SelectorExpr, v Value, st *State) {
 			s := steps[i]
 			lay := x.layout(s.f.Type())
 			ts := x.flatten(st, s.f.Type(), newV)
+			x.noteWrite(typeKey(s.owner)+"."+s.f.Name(), p)
 			for k, c := range lay {
 				key := typeKey(s.owner) + "." + s.f.Name() + c.Suffix
 				arr := x.heapGet(st, key, ArrSort(IntSort, c.S))
